@@ -6,10 +6,14 @@ package props
 // of the previous key; near(r) = elements of S minimising |k-r|; allowed(r) = { map[k] : k in near(r) }.
 
 import (
+	"errors"
 	"fmt"
 	"sort"
 	"testing"
+	"time"
 
+	"github.com/markusressel/fan2go/internal/control_loop"
+	"github.com/markusressel/fan2go/internal/controller"
 	"github.com/markusressel/fan2go/internal/util"
 	"github.com/markusressel/fan2go/verifharness/sim"
 	"pgregory.net/rapid"
@@ -341,4 +345,106 @@ func TestC12Loop(t *testing.T) {
 		}
 		return verdict{vs: vs, nontrivial: choices > 0, labels: []string{"loop", "kind:" + sc.Kind}, outcome: rows}
 	})
+}
+
+// ---- tier 4: the controller's own setPwm over the whole request range ---------------------------
+//
+// Regulation only ever requests values inside the fan's limits; the statement ranges over requests
+// -50..305 for every map. A check-time overlay file exports setPwm (and the installation of a PWM
+// map) of the real controller; fans with and without neverStop / a minimum, with and without PWM
+// read-back.
+
+type c12Set struct {
+	Map        map[int]int `json:"map"`
+	Kind       string      `json:"kind"` // hwmon | file
+	NeverStop  bool        `json:"neverStop,omitempty"`
+	MinPwm     *int        `json:"minPwm,omitempty"`
+	MaxPwm     *int        `json:"maxPwm,omitempty"`
+	Unreadable bool        `json:"unreadable,omitempty"` // the PWM cannot be read back
+	Reqs       []int       `json:"reqs"`
+}
+
+func TestC12SetPwm(t *testing.T) {
+	runProperty(t, "C12", func(t *rapid.T) c12Set {
+		sc := c12Set{Map: genPwmMap(t, "m"), Kind: rapid.SampledFrom([]string{"hwmon", "hwmon", "file"}).Draw(t, "kind")}
+		if sc.Kind == "hwmon" {
+			sc.NeverStop = rapid.Bool().Draw(t, "neverStop")
+			if rapid.Bool().Draw(t, "limits") {
+				sc.MinPwm, sc.MaxPwm = ip(rapid.IntRange(0, 120).Draw(t, "min")), ip(rapid.IntRange(121, 255).Draw(t, "max"))
+			}
+			sc.Unreadable = rapid.IntRange(0, 4).Draw(t, "unreadable") == 0
+		}
+		sup := refSupported(sc.Map)
+		sc.Reqs = rapid.SliceOfN(rapid.IntRange(-50, 305), 10, 40).Draw(t, "reqs")
+		sc.Reqs = append(sc.Reqs, -50, -1, 0, 255, 256, 305)
+		for i := 0; i < len(sup) && i < 8; i++ {
+			sc.Reqs = append(sc.Reqs, sup[i], sup[i]-1, sup[i]+1)
+			if i+1 < len(sup) {
+				sc.Reqs = append(sc.Reqs, (sup[i]+sup[i+1])/2, (sup[i]+sup[i+1])/2+1)
+			}
+		}
+		return sc
+	}, func(t *testing.T, sc c12Set) verdict {
+		sim.BaseConfig()
+		spec := sim.FanSpec{Kind: sc.Kind, NeverStop: sc.NeverStop, MinPwm: sc.MinPwm, MaxPwm: sc.MaxPwm, OrigMode: 1, OrigPwm: 77}
+		r := sim.BuildRig(spec, 0, sim.RpmLaw{Theta: 0, Rpm: 1000}, 0)
+		defer r.Close()
+		if sc.Unreadable {
+			r.Pwm.SetReadMode(sim.ReadEIO)
+		}
+		ctl, ok := controller.NewFanController(sim.NewMemPersistence(), r.Fan, control_loop.NewDirectControlLoop(nil), 200*time.Millisecond).(*controller.DefaultFanController)
+		if !ok {
+			return verdict{labels: []string{"setpwm-hook-unavailable"}}
+		}
+		if err := ctl.VerifSetPwmMap(sc.Map); errors.Is(err, controller.ErrVerifHookUnavailable) {
+			return verdict{labels: []string{"setpwm-hook-unavailable"}}
+		}
+		var vs []sim.Violation
+		sup := refSupported(sc.Map)
+		choices := 0
+		type row struct{ Request, Written int }
+		var rows []row
+		for _, req := range sc.Reqs {
+			err := ctl.VerifSetPwm(req)
+			w := r.Pwm.Get()
+			rows = append(rows, row{req, w})
+			if err != nil {
+				vs = append(vs, sim.Violation{Key: "setpwm-error", Msg: fmt.Sprintf("setPwm(%d) on a working device: %v", req, err)})
+				break
+			}
+			near := refNear(sup, req)
+			good := false
+			for _, k := range near {
+				if sc.Map[k] == w {
+					good = true
+				}
+			}
+			if len(sup) >= 2 && !containsInt(sup, req) {
+				choices++
+			}
+			if !good {
+				vs = append(vs, sim.Violation{Key: "written-not-nearest", Msg: fmt.Sprintf("setPwm(%d): supported inputs %v, nearest %v, device holds %d (fan %s neverStop %v min %v max %v, readable %v)", req, sup, near, w, sc.Kind, sc.NeverStop, optInt(sc.MinPwm), optInt(sc.MaxPwm), !sc.Unreadable)})
+				break
+			}
+		}
+		labels := []string{"setpwm", "kind:" + sc.Kind}
+		if sc.NeverStop && sc.MinPwm != nil && *sc.MinPwm > 0 {
+			labels = append(labels, "never-stop-minimum")
+		}
+		return verdict{vs: vs, nontrivial: choices > 0, labels: labels, outcome: tailRows(rows)}
+	})
+}
+
+func optInt(p *int) any {
+	if p == nil {
+		return nil
+	}
+	return *p
+}
+
+func tailRows[T any](r []T) []T {
+	if len(r) > 12 {
+		return r[len(r)-12:]
+	}
+	return r
 }
